@@ -26,6 +26,7 @@ namespace c09
     {
         if (v.empty()) rep.empty_container = true;
         if (v.size() == 65535) rep.len_65535 = true;
+        if (v.size() * sizeof(T) >= 65536) rep.payload_64k = true;
     }
     template <class K, class V> static void note_flags(const std::map<K, V> &m, StreamReport &rep)
     {
